@@ -169,13 +169,49 @@ def item_tokens(it):
     return [it[1]]
 
 
-def proto_line(initial, contexts, argv, chain, ign=False):
-    ch = "_"
+PYDEFAULT = {"req": "e", "str": "s" + ".".join(str(ord(ch)) for ch in "dflt"), "int": "i3", "none": "n", "btrue": "b1",
+             "bfalse": "b0", "opt": "n", "optd": "s" + ".".join(str(ord(ch)) for ch in "od"), "list": "n", "counter": "i0"}
+
+
+def enc_decl(t):
+    """the SIGNATURE of a task (parameters with their declared defaults + decorator options), in declaration order"""
+    params = [pk for pk in t["params"] if pk[1] == "req"] + [pk for pk in t["params"] if pk[1] != "req"]
+    names = lambda kinds: ",".join(enc(p) for p, k in t["params"] if k in kinds) or "_"
+    return "~".join([enc(cli_name(t)), ";".join("%s:%s" % (enc(p), PYDEFAULT[k]) for p, k in params) or "_",
+                     names(("opt", "optd")), names(("list",)), names(("counter",)), "1" if t["auto_short"] else "0"])
+
+
+def enc_sitem(it):
+    """a spelling item as a mention of a PARAMETER (python name) — the signature-level view of the same item"""
+    t = it[0]
+    if t in ("S", "E"):
+        p = it[3]
+        return "%s%s:%s:%s" % ("L" if it[1] == long_flag(p) else "S", t, enc(p), enc(it[2]))
+    if t == "G":
+        return "SG:%s:%s" % (enc(it[3]), enc(it[2]))
+    if t == "T":
+        return "%s:%s" % ("FL" if it[1] == long_flag(it[2]) else "FS", enc(it[2]))
+    if t == "I":
+        return "NF:%s" % enc(it[2])
+    if t == "O":
+        return "%s:%s" % ("BL" if it[1] == long_flag(it[2]) else "BS", enc(it[2]))
+    if t == "B":
+        return "B:%s" % ";".join(enc(p) for p in it[2])
+    return "P:%s:%s" % (enc(it[2]), enc(it[1]))
+
+
+def proto_line(initial, contexts, argv, chain, ign=False, tasks=None):
+    ch = sg = sch = "_"
     if chain is not None:
         ch = "+".join(",".join([enc(c["task"])] + [enc_item(it) for it in c["items"]]) for c in chain) or "_"
-    return "P %d %s %s %s %s" % (1 if ign else 0, enc_ctx(initial) if initial is not None else "-",
-                                 "+".join(enc_ctx(c) for c in contexts) or "_",
-                                 ",".join("t" + enc(t) for t in argv) or "_", ch)
+        if tasks is not None:
+            by = dict((cli_name(t), t) for t in tasks)
+            if all(c.name in by for c in contexts):
+                sg = "+".join(enc_decl(by[c.name]) for c in contexts) or "_"
+                sch = "+".join(",".join([enc(c["task"])] + [enc_sitem(it) for it in c["items"]]) for c in chain) or "_"
+    return "P %d %s %s %s %s %s %s" % (1 if ign else 0, enc_ctx(initial) if initial is not None else "-",
+                                       "+".join(enc_ctx(c) for c in contexts) or "_",
+                                       ",".join("t" + enc(t) for t in argv) or "_", ch, sg, sch)
 
 
 def show(v):
@@ -574,6 +610,11 @@ def check_case(world, case, out, model_line, do_program):
             out.disagree(case, got, "theorem instance not observed by the driver: " + model_line)
         if chain is not None:
             out.hist["thm_covered" if " cov=1" in model_line else "thm_not_covered"] += 1
+            out.hist["sig_thm_covered" if " sig=1" in model_line else "sig_thm_not_covered"] += 1
+            if " sig=1" in model_line and not any(t["aliases"] for t in case["tasks"]):
+                out.hist["sig_thm_covered(no-alias worlds)"] += 1
+            elif not any(t["aliases"] for t in case["tasks"]):
+                out.hist["sig_thm_not_covered(no-alias worlds)"] += 1
     if chain is None:
         out.hist["damaged:" + ("OK" if got.startswith("OK") else got)] += 1
         return None
@@ -653,7 +694,7 @@ def run(ctx):
     out.hist["skipped_signature_sets(ValueError)"] = skipped
     if ctx.thorough or ctx.escalated:
         batch += exhaustive_cases(out)
-    lines = [proto_line(w.initial, w.contexts, c["argv"], c["chain"]) for w, c in batch]
+    lines = [proto_line(w.initial, w.contexts, c["argv"], c["chain"], tasks=c["tasks"]) for w, c in batch]
     model = drv.run(lines, timeout=1800) if ctx.model_ok else [None] * len(lines)
     for (w, case), ml in zip(batch, model):
         chain = case["chain"]
@@ -671,6 +712,12 @@ def run(ctx):
     tot = out.hist["thm_covered"] + out.hist["thm_not_covered"]
     out.extra["theorem_coverage"] = {"covered": out.hist["thm_covered"], "by_construction_cases": tot,
                                      "share": round(out.hist["thm_covered"] / tot, 4) if tot else None}
+    na = out.hist["sig_thm_covered(no-alias worlds)"] + out.hist["sig_thm_not_covered(no-alias worlds)"]
+    out.extra["signature_theorem_coverage"] = {
+        "theorem": "parse_spelling_from_signatures (contexts = mkCtx of the signatures; aliases not modelled by mkCtx)",
+        "covered": out.hist["sig_thm_covered"], "by_construction_cases": tot,
+        "share": round(out.hist["sig_thm_covered"] / tot, 4) if tot else None,
+        "share_among_worlds_without_aliases": round(out.hist["sig_thm_covered(no-alias worlds)"] / na, 4) if na else None}
     return out
 
 
